@@ -131,7 +131,7 @@ CLAIMED = {
         text="Lean 4 theorems: round trip decode(encode v)=v for every XDR type descriptor and value (mutual structural induction); "
              "the descriptor table and both registration tables REGENERATED from nfstypes/nfs_xdr.go, nfs_types.go and cmd/*/main.go are "
              "equal to the tables transcribed from RFC 1813 (rfl / decide over the whole table); oversize inputs refused; no proper prefix of an encoding decodes, for every descriptor; "
-             "the decoder never looks past what it consumes; every decoded value re-encodes to the same length and value. "
+             "the decoder never looks past what it consumes; every decoded value re-encodes to the same length and value, and on canonical input (booleans/presence flags 0 or 1, zero padding) to the very bytes consumed. "
              "The generic codec model is tied to the real generated Xdr methods by correspondence (values, mutated byte strings, all 28 registrations).",
         design_ref="DESIGN.md 5/C16",
         note="trusted: Lean kernel, the go/ast translator for nfs_xdr.go, the RFC transcription Spec/Rfc1813.lean, the xdr correspondence harness; go-rpcgen's xdr primitives are modelled (tied by correspondence), not verified",
